@@ -54,6 +54,7 @@ var extraRules = map[string]func(p *Program, c *Check){
 	"C20": func(p *Program, c *Check) {
 		rulePanicType(p, c, p.requestPath(false))
 		ruleREC(p, c, p.requestPath(false))
+		ruleVAL1(p, c, p.requestPath(false))
 	},
 	"C05": func(p *Program, c *Check) { ruleREC(p, c, p.requestPath(false)) },
 }
